@@ -79,8 +79,8 @@ ADD = {
  "C03": "Also: profile DJ, the ill-formed-call profile, plans with 255/256/257/300 stages in front of the barrier. Round 11: families with n effective barriers for every n in 1..64 and 255..300 (also doubled / leading barriers).",
  "C04": "Also: the script ends with RunNow::run_now on the dispatcher; every dispatch after a dispatch that ended in a caught panic runs every system once; rejected registrations never run; async stage-width x pool-size sweep lives in C15. Round 10: back-to-back dispatch() scripts (DD, DDD, DRDW, DXDD) on every <= 2-op plan of the async dispatcher. Round 11: dispatch entered from a worker of a foreign pool over plans with multi-group stages; the dispatcher used on a second world and back; batches nested up to 7 deep with every level dispatching twice. Round 12: two dispatches on a world lacking a resource that only optional members name.",
  "C05": "Also: statically typed, generic-derived and long-list systems take part (candidates from E1 are exhibited by E2 as diverging schedules); plans over 16-33 distinct resources; accessor types with a default next to per-instance accessors. Round 10: stage-width x pool-size sweep (2..7 systems on user-supplied / default pools of 1..4 threads; top level, async, batch-inner) against the sequential twin. Round 11: same-named distinct resource types; dispatch entered from a worker of a foreign pool. Round 12: joiner-behind-barrier families.",
- "C06": "Also: compositions naming one resource twice (self-conflicting ones must refuse to fetch and release everything, incl. through the derive macro; shared repeats declare the union), custom setup handlers with a call journal (every member, once per member, in member order), two instantiations of every generic derived struct, decoy resources of the same types under dynamic ids 1 / 2^32 / 2^64-1 that nothing may touch. Declared access is compared as a set. Round 10: derived structs whose field types are tuples, parenthesised types or macro `$t:ty` fragments. Round 11: derive syntax zoo (default type parameter, const generic, path-qualified field types, raw identifiers, field attributes, lifetime bounds).",
- "C07": "Also: barriers and thread-local systems inside inner builders (zoo), profile ED (batches and systems with single dependencies and hints). Round 11: the isolation / dependency / barrier invariants are also judged for every layout INSIDE a batch; ballast shapes (groups filling to capacity) as inner plans; nesting up to 7 deep. Round 12: thread-local systems registered inside a batch stay in that batch's own list.",
+ "C06": "Also: compositions naming one resource twice (self-conflicting ones must refuse to fetch and release everything, incl. through the derive macro; shared repeats declare the union), custom setup handlers with a call journal (every member, once per member, in member order), two instantiations of every generic derived struct, decoy resources of the same types under dynamic ids 1 / 2^32 / 2^64-1 that nothing may touch. Declared access is compared as a set. Round 10: derived structs whose field types are tuples, parenthesised types or macro `$t:ty` fragments. Round 11: derive syntax zoo (default type parameter, const generic, path-qualified field types, raw identifiers, field attributes, lifetime bounds). Round 14: derived structs with 25..53 fields.",
+ "C07": "Also: barriers and thread-local systems inside inner builders (zoo), profile ED (batches and systems with single dependencies and hints). Round 11: the isolation / dependency / barrier invariants are also judged for every layout INSIDE a batch; ballast shapes (groups filling to capacity) as inner plans; nesting up to 7 deep. Round 12: thread-local systems registered inside a batch stay in that batch's own list. Round 14: run counters of every system inside a batch (thread-local ones included) per inner dispatch.",
  "C08": "Also: live meta-table iterators (IterOpen / IterNext), derived bundles, every acquisition also issued from a destructor during unwinding, zero-sized resources with clone_from; the concurrent part preempts between two cell operations (atomic_refcell linked with a scheduling point per operation) and checks linearizability. Round 11: every reached state probes a second, untouched world on the same thread. Round 12: an absent registered type precedes the present ones in the meta table; real-thread witness for guards moved to / dropped on another OS thread (rr --guardhop, 60 configurations).",
  "C09": "Also: five boundary dynamic-id triples ({0, MAX-1, MAX}, 32-bit-truncation and top-bit collisions, 2^32 neighbours) at reduced depth, exec with two-member data, presence queries while a guard of that resource is alive. Round 11: a zoo of nine unusual resource types (Box<dyn Resource>, Box / Arc, (), tuple, Option, Vec<Box<dyn Resource>>, Mutex) with the stored value's dynamic type probed after every step. Round 13: fetches of a present slot while a guard of it is alive succeed or panic, never answer None.",
  "C10": "Also: profile DJ, hints with dependency pairs, non-adjacent repeated dependencies, max_threads for stages wider than any pool, the ill-formed-call profile (a rejected call must not change later placements). Round 11: same-named distinct resource types.",
@@ -92,8 +92,8 @@ ADD = {
  "C16": "Also: dispatch from the only worker of a foreign one-thread pool; oracle that some explored schedule shows par children overlapping; Par::with with the contested id behind up to 40 other entries and with statically typed leaves; a second setup on a fresh world reaches every leaf again. Round 10: leaves over two distinct resource types that share one type name. Round 11: every small tree built with the par! / seq! macros and with new / with behaves identically.",
  "C17": "State key and probes cover the get path, iteration with live guards, and address-changing casts after correct ones. Round 10: a second sweep in which resources reach the world by insert, the entry API or a default provider, with decoys under a dynamic id; every history ends by iterating its own world. Round 11: the histories run a second time with a zero-sized type in the role of the type whose cast changes the address.",
  "C18": "Also: three-resource funnels, hints with dependency pairs, names that collide after sanitising, unnamed batches, repeated dependency names. Round 12: registrations whose running_time() panics unwind with the user's payload.",
- "C19": "Also: relabelling sweep over every ordered pair of a 66|130-id universe (pigeonhole), rayon thread counts 1/2/3/64, naming / un-naming, all 24 relabellings that keep controller-declared resources fixed, parametric families under every transformation and in the no-parallel twin, and: the plan does not depend on (rightly) rejected calls. Round 11: a second builder alive and filled in alternation; statically typed plans (profile S); the plan built on a freshly started thread equals the plan built after thousands of others. Round 13: relabelling sweep also over batches whose inner systems touch both resources.",
- "C20": "Also: a builder printed after every registration prints and builds the same as one printed once; sequences continue after a rejected call; batches, groups of 2+. Round 10: the layout is identified again on the same dispatcher after a clean dispatch and after a caught panic. Round 12: a registration whose running_time() panics leaves nothing behind in the printed plan. Round 13: placeholders of unnamed systems do not depend on other systems' names and are pairwise distinct; thread-local plans.",
+ "C19": "Also: relabelling sweep over every ordered pair of a 66|130-id universe (pigeonhole), rayon thread counts 1/2/3/64, naming / un-naming, all 24 relabellings that keep controller-declared resources fixed, parametric families under every transformation and in the no-parallel twin, and: the plan does not depend on (rightly) rejected calls. Round 11: a second builder alive and filled in alternation; statically typed plans (profile S); the plan built on a freshly started thread equals the plan built after thousands of others. Round 13: relabelling sweep also over batches whose inner systems touch both resources. Round 14: dependency lists reversed / written twice / mirrored / every name three times.",
+ "C20": "Also: a builder printed after every registration prints and builds the same as one printed once; sequences continue after a rejected call; batches, groups of 2+. Round 10: the layout is identified again on the same dispatcher after a clean dispatch and after a caught panic. Round 12: a registration whose running_time() panics leaves nothing behind in the printed plan. Round 13: placeholders of unnamed systems do not depend on other systems' names and are pairwise distinct; thread-local plans. Round 14: names outside ASCII.",
 }
 
 checks=[]
